@@ -135,6 +135,10 @@ def facts_dir(root="/repo", config="default", extra_flags=()):
     d = os.path.join(CACHE, key, "facts-" + config)
     meta_p = os.path.join(d, "META.json")
     if os.path.exists(meta_p):
+        try:
+            os.utime(os.path.join(CACHE, key), None)  # in use: keeps the entry out of reach of prune_cache
+        except OSError:
+            pass
         with open(meta_p) as fh:
             meta = json.load(fh)
         if meta.get("root") != root:
@@ -185,6 +189,10 @@ def ir_module(root="/repo"):
     d = os.path.join(CACHE, key, "ir")
     out = os.path.join(d, "library.ll")
     if os.path.exists(out):
+        try:
+            os.utime(os.path.join(CACHE, key), None)
+        except OSError:
+            pass
         return out
     tmpd = d + ".tmp%d" % os.getpid()
     shutil.rmtree(tmpd, ignore_errors=True)
@@ -239,5 +247,10 @@ def prune_cache(keep=6):
         except OSError:
             pass
     ents.sort(reverse=True)
-    for _, p in ents[keep:]:
-        shutil.rmtree(p, ignore_errors=True)
+    # never remove an entry another run may still be reading: entries touched in the last 20 minutes stay, whatever their number
+    # (the tools run dozens of checks on different trees at the same time)
+    import time
+    now = time.time()
+    for mt, p in ents[max(keep, 8):]:
+        if now - mt > 1200:
+            shutil.rmtree(p, ignore_errors=True)
